@@ -11,6 +11,8 @@ import (
 	"sort"
 	"strconv"
 	"strings"
+	"sync"
+	"time"
 )
 
 // Case is one executed case: kind, flat input, flat observed output of the implementation.
@@ -110,3 +112,39 @@ func b2i(b bool) int64 {
 
 // pick returns one of the values.
 func pick(r *rand.Rand, vs ...int64) int64 { return vs[r.Intn(len(vs))] }
+
+// Progress marks of a running case, keyed by its PRNG; written into the goroutine dump when the
+// case does not come back.
+var marks sync.Map
+
+type markEntry struct {
+	at time.Time
+	s  string
+}
+
+func Mark(r *rand.Rand, s string) {
+	v, _ := marks.LoadOrStore(r, &[]markEntry{})
+	l := v.(*[]markEntry)
+	*l = append(*l, markEntry{time.Now(), s})
+	if len(*l) > 400 {
+		*l = (*l)[200:]
+	}
+}
+
+func Marks(r *rand.Rand) string {
+	v, ok := marks.Load(r)
+	if !ok {
+		return ""
+	}
+	out := ""
+	var t0 time.Time
+	for i, e := range *v.(*[]markEntry) {
+		if i == 0 {
+			t0 = e.at
+		}
+		out += fmt.Sprintf("%8.3fs %s\n", e.at.Sub(t0).Seconds(), e.s)
+	}
+	return out
+}
+
+func Unmark(r *rand.Rand) { marks.Delete(r) }
